@@ -9,7 +9,7 @@ lemma is itself a violation and the sites that rest on it are listed with it.
 import re
 from ..core import ordrules, pan, terms, tab
 from ..core.facts import callee_name, norm_name
-from ..core.prog import canon, short
+from ..core.prog import canon, short, Prog
 
 TESTDATA = "data_row_iterator::DataRowIteratorTestData"
 
@@ -877,7 +877,10 @@ class Lemmas:
     def tka(self):
         if getattr(self, "_tka", None) is None:
             from ..core import tka as tkamod
-            T = tkamod.TKA(self.P)
+            # the typestate analysis is interprocedural over the parser's functions: it reads new helpers as functions
+            # (keeping the Ok/Err correlation of their results), not spliced into their callers
+            self.P_tka = self.P if self.P.f.raw() is self.P.f else Prog(self.P.f.raw())
+            T = tkamod.TKA(self.P_tka)
             self._tka_prims = T.verify_primitives(self.chk)
             from . import eqrules
             eqrules.require(self.chk, self.P, ["lexer::token::TokenKind"], "`tok.kind == K` / `at(K)` / `expect(K)` test the token kind itself")
@@ -914,9 +917,9 @@ class Lemmas:
         short_fn = fn.split(" for ")[-1].replace(">::from", "")
         # every call of the conversion must be inside the analysed parser functions
         analysed = set(k[0] for k in T.results)
-        direct = [(b.name, bb) for b, bb, nm in self.P.callers(lambda n: n == fn)]
+        direct = [(b.name, bb) for b, bb, nm in self.P_tka.callers(lambda n: n == fn)]
         via_into = []
-        for b in self.P.f.hand_bodies():
+        for b in self.P_tka.f.hand_bodies():
             for bb, t in b.calls():
                 nm, fi = callee_name(t)
                 if T._conversion_target(nm, fi) == fn and nm != fn:
